@@ -31,3 +31,7 @@ Qed.
 
 Example ex_valid : valid (map prod_list ex_shapes) (3, 0).
 Proof. unfold valid; simpl; split; repeat constructor. Qed.
+
+From Verif.C14 Require Import ProofsBd.
+Example ex_joins_wellformed : Forall (bjoin_ok ex_shapes) ex_joins.
+Proof. repeat constructor; simpl; try lia; try discriminate. Qed.
